@@ -114,6 +114,23 @@ type Atom struct {
 	Vals  []string `json:"vals,omitempty"`
 	Other *Path    `json:"other,omitempty"`
 	Dt    string   `json:"dt,omitempty"`
+	// pattern: one of four shapes over literal text: ^lit$ / ^lit / lit$ / lit
+	AnchorStart bool   `json:"anchorStart,omitempty"`
+	AnchorEnd   bool   `json:"anchorEnd,omitempty"`
+	Lit         string `json:"lit,omitempty"`
+	// uniqueValues argument
+	UArg *bool `json:"uarg,omitempty"`
+}
+
+func (a Atom) patternText() string {
+	s := a.Lit
+	if a.AnchorStart {
+		s = "^" + s
+	}
+	if a.AnchorEnd {
+		s += "$"
+	}
+	return s
 }
 
 type Quant struct {
@@ -183,9 +200,9 @@ func renderAtomConstraint(w *yw, ind int, a Atom) {
 	case "datatype":
 		w.line(ind, fmt.Sprintf("datatype: %s", yq(compactDt(a.Dt))))
 	case "pattern":
-		w.line(ind, fmt.Sprintf("pattern: %s", yq(a.Dt)))
+		w.line(ind, fmt.Sprintf("pattern: %s", yq(a.patternText())))
 	case "uniqueValues":
-		w.line(ind, fmt.Sprintf("uniqueValues: %v", a.Dt == "true"))
+		w.line(ind, fmt.Sprintf("uniqueValues: %v", a.UArg == nil || *a.UArg))
 	case "moreThanProperty", "moreThanOrEqualsToProperty":
 		w.line(ind, fmt.Sprintf("%s: %s", a.Kind, yq(a.Other.Render())))
 	default:
